@@ -50,7 +50,7 @@ def run(prop, tier, replay_dir, active_kf=()):
     summary = []
     for item in data:
         cfg = item["cfg"]
-        tag = ("min%dmax%dp%s" % tuple(cfg)) if len(cfg) == 3 else ("v%dmin%dmax%dp%s" % tuple(cfg))
+        tag = "v%dmin%dmax%dp%s" % tuple(cfg)
         if item.get("error"):
             res["obligations"] += 1
             res["inconclusive"].append({"harness": "%s.fpsym.%s.%s" % (prop, kind, tag), "fn": kind, "why": item["error"]})
